@@ -747,35 +747,62 @@ func (a *NXActionCTNAT) SetPersistent() error {
 	return nil
 }
 
+// rangesLen is the size of the action with the ranges it holds now. The setters store it
+// instead of adding to a running total: Len rounds the stored length up to a multiple of 8,
+// so a total carried across a Len call, or across a second call of the same setter, would
+// count bytes the encoding does not have.
+func (a *NXActionCTNAT) rangesLen() (n uint16) {
+	n = 16
+	if a.rangeIPv4Min != nil {
+		n += 4
+	}
+	if a.rangeIPv4Max != nil {
+		n += 4
+	}
+	if a.rangeIPv6Min != nil {
+		n += 16
+	}
+	if a.rangeIPv6Max != nil {
+		n += 16
+	}
+	if a.rangeProtoMin != nil {
+		n += 2
+	}
+	if a.rangeProtoMax != nil {
+		n += 2
+	}
+	return
+}
+
 func (a *NXActionCTNAT) SetRangeIPv4Min(ipMin net.IP) {
 	a.rangeIPv4Min = ipMin
 	a.rangePresent |= NX_NAT_RANGE_IPV4_MIN
-	a.Length += 4
+	a.Length = a.rangesLen()
 }
 func (a *NXActionCTNAT) SetRangeIPv4Max(ipMax net.IP) {
 	a.rangeIPv4Max = ipMax
 	a.rangePresent |= NX_NAT_RANGE_IPV4_MAX
-	a.Length += 4
+	a.Length = a.rangesLen()
 }
 func (a *NXActionCTNAT) SetRangeIPv6Min(ipMin net.IP) {
 	a.rangeIPv6Min = ipMin
 	a.rangePresent |= NX_NAT_RANGE_IPV6_MIN
-	a.Length += 16
+	a.Length = a.rangesLen()
 }
 func (a *NXActionCTNAT) SetRangeIPv6Max(ipMax net.IP) {
 	a.rangeIPv6Max = ipMax
 	a.rangePresent |= NX_NAT_RANGE_IPV6_MAX
-	a.Length += 16
+	a.Length = a.rangesLen()
 }
 func (a *NXActionCTNAT) SetRangeProtoMin(protoMin *uint16) {
 	a.rangeProtoMin = protoMin
 	a.rangePresent |= NX_NAT_RANGE_PROTO_MIN
-	a.Length += 2
+	a.Length = a.rangesLen()
 }
 func (a *NXActionCTNAT) SetRangeProtoMax(protoMax *uint16) {
 	a.rangeProtoMax = protoMax
 	a.rangePresent |= NX_NAT_RANGE_PROTO_MAX
-	a.Length += 2
+	a.Length = a.rangesLen()
 }
 
 func (a *NXActionCTNAT) UnmarshalBinary(data []byte) error {
